@@ -4,7 +4,7 @@ PROP = {
     "level": "proof",
     "harness_cmd": "c01",
     "run_file": "Run/C01Run.v",
-    "obligation_files": ["Props/C01.v", "Sem/GenBuggyProofs.v"],
+    "obligation_files": ["Props/C01.v", "Sem/GenBuggyProofs.v", "Sem/GenProofs.v", "Sem/PinnedProofs.v"],
     "harness_timeout": 3000,
     # lists of counts printed by every case file, summed over the shards into coverage.correspondence.coq_counts
     "count_lists": {"c01_counts": ["M_compared", "M_skipped_unsupported", "M_skipped_out_of_fuel", "M_skipped_laziness",
@@ -21,13 +21,12 @@ PROP = {
                     "lists are eager in the model: when the model reports an error, the implementation a value, and the program contains a lazy stage (map/accept), the case is counted as skipped (laziness); callbacks of lazy stages are generated total"],
     "residue": "",
     "correspondence_only": ["text -> AST (tokenizer and parser: the model starts from the AST the real parser produced; the specification side starts from the harness's own tree)",
-                            "exec_sim / C01_generated (Gen.exec refines Ref.eval for all programs) are stated in Props/C01_core.v, not yet in Props/C01.v; the run counts the dumped ASTs on which their hypotheses hold",
                             "built-in methods and static functions outside the pool of coq/Sem/Lib.v (the model answers `unsupported`)"],
 }
 
 MANIFEST = {
-    "text": "Executable Coq model of GenerateFunc on an explicitly threaded shared stack (Sem/Gen.v) and lexically scoped reference semantics (Sem/Ref.v). Theorems of Props/C01.v: the arity tables the models use agree with the tables regenerated from value.New(); the call-site discipline of the pinned commit (no reserved slots) is refuted by a computed witness (505 vs 506); non-vacuity examples (recursion, three closure levels, let in a later call argument, map-field closure). The simulation theorem exec_sim / C01_generated (all programs, all fuel) lives in Props/C01_core.v. Three-way correspondence on every run: implementation (optimizer on and off) vs generator model on the AST of the REAL parser vs reference semantics on the harness's own unannotated tree, over type-directed programs with binders boosted inside call, method and literal arguments; the run also counts on how many of the dumped ASTs the hypotheses of C01_generated (gen_check, side_ok) hold.",
+    "text": "Theorems (Coq, all programs, all fuel, all frames; Props/C01.v): exec_sim - the generator model (Sem/Gen.v: compile-time slot indices, shared value stack with reserved slots for pending arguments, closure contexts) refines the lexically scoped reference semantics (Sem/Ref.v) in lock-step and leaves the caller's frame untouched; C01_from_ast / C01_generated - Generate then Eval equals the reference for every AST that gen_check accepts (plus the decidable side condition side_ok); call_frame_independent; exec_sim_pinned_refuted and C01_pinned_discipline_refuted - the call-site discipline of the pinned commit violates the statement (505 instead of 506 on the probed program); C01_tables_ok - the arity tables of the models agree with the tables regenerated from value.New(). Three-way correspondence on every run: implementation (optimizer on and off) vs generator model on the AST dumped from the REAL parser vs reference semantics on the harness's own unannotated tree, over type-directed programs with binders boosted inside call, method and literal arguments; the run checks gen_check/side_ok on every dumped AST (hypotheses of C01_generated) and that Generate fails exactly when the model says so.",
     "design_ref": "DESIGN.md section 6 C01",
-    "note": "Text -> AST (tokenizer, parser, OuterIdents/Recursive annotations, const-let propagation) is covered by correspondence only: the specification side starts from the generator's own tree, the model from the dumped parser AST. Trusted: Coq kernel + VM, table hooks, the Go harness (generator, renderer, scope tracking for static calls, canonicalisation).",
-    "technique": "Coq model + proofs + vm_compute three-way correspondence run (implementation / generator model / reference semantics) + table obligations",
+    "note": "Text -> AST (tokenizer, parser, OuterIdents/Recursive annotations, const-let propagation; T2/T3 of the design) is covered by correspondence only: the specification side starts from the generator's own tree, the model from the dumped parser AST. Operators and built-ins (Sem/Ops.v, Sem/Lib.v) are shared by both semantics, their fidelity to the Go code is C07/C14's business and the run's. Trusted: Coq kernel + VM, table hooks, the Go harness (generator, renderer, scope tracking for static calls, canonicalisation).",
+    "technique": "Coq model + simulation proof + vm_compute three-way correspondence run (implementation / generator model / reference semantics) + table obligations",
 }
